@@ -247,6 +247,18 @@ static string opXFs(const vector<string> &f) {
     o.add("nframes", framesOf(n));
     o.add("istr", hx(i.frameRange()));
     o.add("iframes", framesOf(i));
+    {
+        // membership asked of the DERIVED sets (and of a copy of one)
+        string nh, ih;
+        fileseq::FrameSet icopy(i);
+        for (size_t k = 0; k < qv.size(); ++k) {
+            if (k) { nh += ","; ih += ","; }
+            nh += n.hasFrame(qv[k]) ? "1" : "0";
+            ih += icopy.hasFrame(qv[k]) ? "1" : "0";
+        }
+        o.add("nhas", nh);
+        o.add("ihas", ih);
+    }
     string frp = fs.frameRange(3);
     o.add("frp", hx(xStrip(frp)));
     o.add("frpw", numeralsPadded(frp, 3) ? "1" : "0");
